@@ -257,7 +257,14 @@ func (server *Server) tlsServe(l net.Listener, tlsConfig *tls.Config) error {
 // abandoned handshake affects only that client.
 func (server *Server) tlsReceive(conn net.Conn, tlsConfig *tls.Config) error {
 	tlsConn := tls.Server(conn, tlsConfig)
-	if err := tlsConn.Handshake(); err != nil {
+	// The connection is registered during the handshake too so that Stop() closes it.
+	handshakeConn := newConnWith(tlsConn, nil)
+	if err := server.AddConn(handshakeConn); err != nil {
+		return errors.Join(err, conn.Close())
+	}
+	err := tlsConn.Handshake()
+	server.RemoveConn(handshakeConn)
+	if err != nil {
 		log.Error(err)
 		return errors.Join(err, conn.Close())
 	}
